@@ -8,8 +8,8 @@ import (
 	"os"
 	"runtime"
 	"runtime/debug"
-	"strings"
 	"strconv"
+	"strings"
 	"testing"
 	"testing/synctest"
 	"time"
@@ -41,9 +41,9 @@ type workerOut struct {
 }
 
 type violationOut struct {
-	Plan   *Plan       `json:"plan"`
-	Viol   []Violation `json:"viol"`
-	Log    []string    `json:"log"`
+	Plan *Plan       `json:"plan"`
+	Viol []Violation `json:"viol"`
+	Log  []string    `json:"log"`
 }
 
 func envInt(name string, def int) int {
@@ -77,14 +77,26 @@ func runPlan(t *testing.T, def *PropDef, p *Plan) (res *Result) {
 	if def.NoBubble {
 		return def.Run(p)
 	}
-	synctest.Test(t, func(t *testing.T) {
+	var outer any
+	t.Run("b", func(t2 *testing.T) {
+		// a subtest per bubble: a race report fails (and stops) only the subtest, not the worker loop
 		defer func() {
 			if r := recover(); r != nil {
-				res = &Result{Infra: fmt.Sprintf("harness panic in bubble: %v\n%s", r, debug.Stack())}
+				outer = r
 			}
 		}()
-		res = def.Run(p)
+		synctest.Test(t2, func(*testing.T) {
+			defer func() {
+				if r := recover(); r != nil {
+					res = &Result{Infra: fmt.Sprintf("harness panic in bubble: %v\n%s", r, debug.Stack())}
+				}
+			}()
+			res = def.Run(p)
+		})
 	})
+	if outer != nil {
+		panic(outer)
+	}
 	if res == nil {
 		res = &Result{Infra: "run produced no result"}
 	}
@@ -95,6 +107,11 @@ var curT *testing.T
 
 func TestSim(t *testing.T) {
 	curT = t
+	initRaceLog()
+	raceCtl := ""
+	if raceLogPath != "" {
+		raceCtl = raceControls(t)
+	}
 	prop := os.Getenv("VERIF_PROP")
 	def := props[prop]
 	if def == nil {
@@ -103,6 +120,9 @@ func TestSim(t *testing.T) {
 	outPath := os.Getenv("VERIF_OUT")
 	out := &workerOut{Worker: envInt("VERIF_WORKER", 0), Prop: prop, Faults: map[string]int{}, Probes: map[string]int{}}
 	start := time.Now()
+	if raceCtl != "" {
+		out.Infra = append(out.Infra, "race-detector control: "+raceCtl)
+	}
 	write := func() {
 		out.WallS = time.Since(start).Seconds()
 		b, _ := json.Marshal(out)
@@ -132,6 +152,7 @@ func TestSim(t *testing.T) {
 		}
 		for i, p := range plans {
 			res := runPlan(t, def, p)
+			attachRaces(res)
 			out.Runs++
 			if res.Infra != "" {
 				out.Infra = append(out.Infra, res.Infra)
@@ -168,6 +189,7 @@ func TestSim(t *testing.T) {
 		p.Prop, p.Seed, p.Index, p.Tier = prop, seed, idx, tier
 		t0 := time.Now()
 		res := runPlan(t, def, p)
+		attachRaces(res)
 		if time.Since(t0) > 20*time.Second {
 			out.Infra = append(out.Infra, fmt.Sprintf("run %d exceeded the 20 s real-time watchdog", idx))
 		}
@@ -252,19 +274,47 @@ func inBubble(f func()) (leaked bool) {
 			panic(r)
 		}
 	}()
-	var inner any
+	var inner, outer any
 	var innerStack []byte
-	synctest.Test(curT, func(t *testing.T) {
+	curT.Run("b", func(t2 *testing.T) {
 		defer func() {
 			if r := recover(); r != nil {
-				inner, innerStack = r, debug.Stack()
+				outer = r
 			}
 		}()
-		f()
-		completed = true
+		synctest.Test(t2, func(*testing.T) {
+			defer func() {
+				if r := recover(); r != nil {
+					inner, innerStack = r, debug.Stack()
+				}
+			}()
+			f()
+			completed = true
+		})
 	})
+	if outer != nil {
+		panic(outer)
+	}
 	if inner != nil {
 		panic(fmt.Sprintf("%v\n%s", inner, innerStack))
 	}
 	return false
+}
+
+// attachRaces converts race reports written during the run into C16 violations.
+func attachRaces(res *Result) {
+	d := raceDelta()
+	if d == "" {
+		return
+	}
+	sigs, details, harness := parseRaceReports(d)
+	for _, s := range sigs {
+		res.Viol = append(res.Viol, Violation{"C16", s, details[s]})
+	}
+	if len(harness) > 0 && res.Infra == "" {
+		res.Infra = "race report with simulator frames on both sides (harness bug):\n" + harness[0]
+	}
+	if strings.Contains(d, "fatal error: concurrent map") {
+		res.Viol = append(res.Viol, Violation{"C16", "fatal-concurrent-map-access", d})
+	}
 }
